@@ -4,6 +4,7 @@ import Netpoll.ShardInv.Lock
 import Netpoll.ShardInv.RingAll
 import Netpoll.ShardInv.Ids
 import Netpoll.ShardInv.IdsW
+import Netpoll.ShardInv.Misc
 /-! The full invariant `Good`, its preservation by every step, and the lift to `Reachable`. -/
 namespace Netpoll.Shard
 
@@ -15,6 +16,7 @@ structure Good (s : S) : Prop where
   tr : GTrig s
   ex : GExcl s
   ids : GIds s
+  ms : GMisc s
   rp : s.emptyAdds = 0 → GRing s ∧ GPend s
 
 theorem gids_step (s s' : S) (a : Act) (h : GIds s) (hs : step s a = some s') : GIds s' := by
@@ -47,7 +49,7 @@ theorem emptyAdds_mono (s s' : S) (a : Act) (hs : step s a = some s') : s.emptyA
 
 theorem good_step (s s' : S) (a : Act) (h : Good s) (hs : step s a = some s') : Good s' := by
   refine ⟨gstruct_step s s' a h.st hs, glock_step s s' a h.lk hs, gtrig_step s s' a h.tr hs,
-          gexcl_step s s' a h.ex hs, gids_step s s' a h.ids hs, ?_⟩
+          gexcl_step s s' a h.ex hs, gids_step s s' a h.ids hs, gmisc_step s s' a h.ms hs, ?_⟩
   intro hc
   have hm := emptyAdds_mono s s' a hs
   have h0 : s.emptyAdds = 0 := by omega
@@ -55,7 +57,7 @@ theorem good_step (s s' : S) (a : Act) (h : Good s) (hs : step s a = some s') : 
   exact ringpend_step s s' a hc h.st hR hP h.tr hs
 
 theorem good_init (n : Nat) : Good (init n) :=
-  ⟨gstruct_init n, glock_init n, gtrig_init n, gexcl_init n, gids_init n, fun _ => ringpend_init n⟩
+  ⟨gstruct_init n, glock_init n, gtrig_init n, gexcl_init n, gids_init n, gmisc_init n, fun _ => ringpend_init n⟩
 
 theorem good_run (acts : List Act) : ∀ (s s' : S), Good s → run s acts = some s' → Good s' := by
   induction acts with
